@@ -1,6 +1,8 @@
 import RV.Model.Janus
 import RV.Model.Reversal
 import RV.Gen.C10Janus
+import RV.Model.C10Saba
+import RV.Gen.C01Saba
 import RV.Driver.Util
 /-
   drv_c10: runs the JANUS model (RV/Model/Janus.lean) on IEEE doubles / two's-complement
@@ -300,6 +302,22 @@ def lawsLine (toks : List String) : String :=
                      hx (JFloat.ofInt (match (JFloat.truncToInt a : Option I64) with | some i => i | none => 0#64) : Float)]
   | _ => "bad-op"
 
+/-- `saba <type index>`: the operator list of one synchronized step of that SABA type according to the model
+    RV/Model/C10Saba.lean run on the extracted tables: tokens `kind:num/den` (coefficient in units of dt) -/
+def sabaLine (toks : List String) : String :=
+  match toks with
+  | [idx] =>
+    match idx.toNat? with
+    | some idx =>
+      match RV.C01.Gen.sabaTypes.find? (fun t => t.2.1 == idx), RV.C01.Gen.sabaC[idx]?, RV.C01.Gen.sabaD[idx]? with
+      | some t, some c, some d =>
+        match RV.C10Saba.step t.2.2 c d with
+        | some l => " ".intercalate (l.map (fun o => s!"{o.kind}:{o.a.num}/{o.a.den}"))
+        | none => "err"
+      | _, _, _ => "bad-type"
+    | none => "bad-op"
+  | _ => "bad-op"
+
 def dispatch (toks : List String) : String :=
   match toks with
   | "janus" :: r => janusLine r
@@ -308,6 +326,7 @@ def dispatch (toks : List String) : String :=
   | "sei" :: r => seiLine r
   | "trunc" :: r => truncLine r
   | "laws" :: r => lawsLine r
+  | "saba" :: r => sabaLine r
   | _ => "bad-op"
 
 def main : IO Unit := runLines dispatch
